@@ -152,3 +152,7 @@ func (c *vrtConn) isClosed() bool {
 }
 
 var _ net.Conn = (*vrtConn)(nil)
+
+// vrtSetDialConn: the next net.Dial of the library reaches this pipe (engine:
+// intercepted; native: loopback listener + proxy, see the runtime).
+func vrtSetDialConn(c *vrtConn) { vrtSetDialConnEnd(c) }
